@@ -2,7 +2,7 @@
      Backend.create_test_serialisation (sorted by -priority)  backends.py:1274-1276
      TestHarness.split_suite_string / test_in_suites          mtest.py:1949-1981
      TestHarness.test_suitable                                mtest.py:1983-2005
-     TestHarness.tests_from_args (fnmatch with `*` and `?`)   mtest.py:2007-2058
+     TestHarness.tests_from_args (fnmatch with `*`, `?`, `[seq]`, `[!seq]`)   mtest.py:2007-2058
      TestHarness.get_tests (filters, --slice)                 mtest.py:2060-2080
    No proofs in this file. *)
 From MV Require Export Base.Strs.
@@ -82,22 +82,74 @@ Definition arg_pattern (a : str) : str * str :=
   | Some (sp, nm) => ((if nilb sp then star else sp), (if nilb nm then star else nm))
   | None => (star, a)
   end.
-(* fnmatch.fnmatch on POSIX (normcase is the identity; the translated regex must match
-   the whole string): `*` matches any run of characters, `?` exactly one, everything else
-   itself.  Bracket expressions `[...]` are not modelled (generators avoid `[`). *)
-Fixpoint gmatch (pat : str) : str -> bool :=
-  match pat with
-  | [] => fun s => nilb s
-  | c :: pat' =>
-      if (c =? 42)%N then
-        (fix star (s : str) : bool :=
-           gmatch pat' s || match s with [] => false | _ :: s' => star s' end)
-      else fun s =>
-        match s with
-        | [] => false
-        | d :: s' => ((c =? 63)%N || (c =? d)%N) && gmatch pat' s'
-        end
+(* fnmatch.fnmatch on POSIX (normcase is the identity; fnmatch.translate, the regex must match the
+   whole string): `*` matches any run of characters, `?` exactly one, `[seq]` one character of seq,
+   `[!seq]` one character not in seq, everything else itself.  translate() looks for the closing
+   bracket after an optional `!` and an optional `]` (which is then a member); without a closing
+   bracket the `[` is literal.  Ranges: a `-` inside a bracket expression is NOT modelled (translate()
+   rewrites ranges in several steps); the generators keep `-` out of brackets. *)
+Inductive gtok := GStar | GAny | GLit (c : char) | GSet (neg : bool) (cs : list char).
+
+Fixpoint find_close (s : str) : option (str * str) :=
+  match s with
+  | [] => None
+  | c :: r =>
+      if (c =? 93)%N then Some ([], r)
+      else match find_close r with
+           | Some (a, b) => Some (c :: a, b)
+           | None => None
+           end
   end.
+
+(* s = the text after `[` -> (negated, members, text after the closing bracket) *)
+Definition bracket (s : str) : option (bool * list char * str) :=
+  let '(neg, s1) := match s with (33%N) :: r => (true, r) | _ => (false, s) end in
+  let '(first, s2) := match s1 with (93%N) :: r => ([93%N], r) | _ => ([], s1) end in
+  match find_close s2 with
+  | None => None
+  | Some (body, rest) => Some (neg, first ++ body, rest)
+  end.
+
+Fixpoint gtokens (fuel : nat) (p : str) : list gtok :=
+  match fuel with
+  | O => []
+  | S f =>
+      match p with
+      | [] => []
+      | c :: r =>
+          if (c =? 42)%N then GStar :: gtokens f r
+          else if (c =? 63)%N then GAny :: gtokens f r
+          else if (c =? 91)%N then
+            match bracket r with
+            | Some (neg, cs, rest) => GSet neg cs :: gtokens f rest
+            | None => GLit c :: gtokens f r
+            end
+          else GLit c :: gtokens f r
+      end
+  end.
+
+Definition tok1 (t : gtok) (d : char) : bool :=
+  match t with
+  | GAny => true
+  | GLit c => (c =? d)%N
+  | GSet neg cs => xorb neg (memb d cs)
+  | GStar => false
+  end.
+
+Fixpoint tmatch (ts : list gtok) : str -> bool :=
+  match ts with
+  | [] => fun s => nilb s
+  | GStar :: ts' =>
+      (fix star (s : str) : bool :=
+         tmatch ts' s || match s with [] => false | _ :: s' => star s' end)
+  | t :: ts' => fun s =>
+      match s with
+      | [] => false
+      | d :: s' => tok1 t d && tmatch ts' s'
+      end
+  end.
+
+Definition gmatch (pat : str) (s : str) : bool := tmatch (gtokens (length pat) pat) s.
 Definition pmatch (s pat : str) : bool := gmatch pat s.
 Definition arg_matches (t : tdef) (p : str * str) : bool :=
   pmatch (t_project t) (fst p) && pmatch (t_name t) (snd p).
